@@ -7,7 +7,7 @@ from rules_protocol import (short, effects, set_fields, event_kinds, sig_writes,
                             phase, tkey, EVENTS)
 from rules_more import (prop, REGISTRY, kinds, error_exit_blocks, returns_of, forall_loop, reachable_without_running,
                         finishing_writes, nbr_parent, api_roots, call_graph, reachable_from)
-from rules_history import (classify_key, value_class, nh_run, out_ops, final_points, started_field, is_loop_key, may_have_output,
+from rules_history import (rule_started_failed_dropped, rule_failed_edges_untouched, rule_never_started_kept, classify_key, value_class, nh_run, out_ops, final_points, started_field, is_loop_key, may_have_output,
                            accepted_status)
 
 RESULT = "std::result::Result"
@@ -53,9 +53,7 @@ def force_bool(val):
     return f
 
 
-# =============================================================================================
-@prop("C15")
-def check_C15(A, R, tier):
+def rule_no_textual_record_compare(A, R, rule):
     runs = all_runs(A)
     # R15.1: no textual comparison of two output records anywhere ------------------------------------
     seen = set()
@@ -71,11 +69,18 @@ def check_C15(A, R, tier):
                 continue
             ncmp += 1
             ra, rb = is_record(value_class(a)), is_record(value_class(b))
-            R.ob("R15.1", "%s | string comparison is not between two output records" % short(v["fn"]), not (ra and rb),
+            R.ob(rule, "%s | string comparison is not between two output records" % short(v["fn"]), not (ra and rb),
                  detail="two output records (%s / %s) are compared textually instead of through the configured comparison"
                         % (sorted(map(str, ra))[:2], sorted(map(str, rb))[:2]), site=A.site(v))
     R.info["string_comparisons_seen"] = ncmp
-    R.floor("R15.1", "string comparisons analysed (input-name lists, ids)", ncmp, 1)
+    R.floor(rule, "string comparisons analysed (input-name lists, ids)", ncmp, 1)
+
+
+# =============================================================================================
+@prop("C15")
+def check_C15(A, R, tier):
+    runs = all_runs(A)
+    rule_no_textual_record_compare(A, R, "R15.1")
     # all comparisons of records go through the strategy: inventory
     seen = set()
     for (entry, label), run in runs:
@@ -286,6 +291,9 @@ def check_C16(A, R, tier):
             R.ob("R16.1", "event_job_finished_success | %s | no changed-output error for a job that is not a validated Ephemeral" % A.sname(s),
                  not errs, detail="the error is reachable from state %s" % A.sname(s), site=A.site(errs[0]) if errs else "")
     R.ob("R16.1", "the changed-output error has exactly one construction site", len(sites) == 1, detail=str(sorted(sites)))
+    # R16.3: the failure reaches the dependants (they become upstream-failed)
+    from rules_more import rule_failure_propagation
+    rule_failure_propagation(A, R, "R16.3", "R16.3")
     # nowhere else
     for (entry, label), run in all_runs(A):
         if entry == A.evaluator_fn("event_job_finished_success").name:
@@ -515,6 +523,10 @@ def check_C03(A, R, tier):
                         continue
                     R.ob("R3.5", "%s | %s, verdict %s | is not skipped" % (short(b.name), A.sname(s), A.uni.show(vt, verdict)), not skips,
                          detail="a job is skipped although its validation did not succeed", site=A.site(skips[0]) if skips else "")
+    # R3.6: what a failed / interrupted attempt leaves behind cannot vouch for the job later
+    rule_started_failed_dropped(A, R, "R3.6")
+    rule_failed_edges_untouched(A, R, "R3.6")
+    rule_never_started_kept(A, R, "R3.6")
     R.explanation = ("Each change detector is shown to reach the decision (necessary conditions): the startup classification is analysed with "
                      "the detector's outcome forced (input-name list differs / result missing / no own record) and must, on every path, move "
                      "the job to a state from which it is never re-validated; the validation function is analysed with the dependency "
@@ -701,3 +713,230 @@ def validated_verdict(A, sk):
                         res = verdict
     A.__dict__["_vv"] = res
     return res
+
+
+# =============================================================================================
+def no_output_points(A):
+    """finished states in which a job can have no history_output (over-approximation): everything except the states
+    that are only entered after the output was attached (success closure, skip with a mandatory record)"""
+    C = A.classes()
+    K = kinds(A)
+    H = A.handler_runs()
+    pts, execok, postrun = final_points(A)
+    hf = A.L.histout_field
+    sk = skip_kind(A)
+    must_some = set(execok)
+    for s in A.JS:
+        run = H[(sk, s)]
+        for v in run.by_kind("write_jobfield"):
+            if v["field"] == hf and v["value"][0] == "adt" and set(adt_variants(v["value"])) == {1}:
+                for w in run.by_kind("write_state"):
+                    if w["key"][0] == v["key"][0] and connected(A, w, v):
+                        must_some |= set(w["to"])
+    return [s for s in sorted(C["Finished"] & A.reach()) if s not in must_some]
+
+
+def rule_history_after_any_outcome(A, R, rule):
+    """new_history's loops have no error / panic exit for a job without output in any state such a job can end in"""
+    C = A.classes()
+    n = 0
+    for s in no_output_points(A):
+        n += 1
+        run = nh_run(A, "edgea|%s|none" % A.sname(s), "edge_a", [s], histout=0, extra_roles={"edge_b": dict(state=None, histout=1, bools={})})
+        errs = [v for v in run.by_kind("error_construct") if any(c[0][3:4] == ("ea",) for c in v["cells"] if isinstance(c[0], tuple))]
+        R.ob(rule, "new_history | upstream without output ended in %s, downstream succeeded | recording the dependency cannot fail" % A.sname(s),
+             not errs, detail="new_history returns %s for a state a job can legitimately end in" % (errs[0]["variant"] if errs else ""),
+             site=A.site(errs[0]) if errs else "")
+        if s in C["FailedLike"]:
+            run = nh_run(A, "node|%s|none" % A.sname(s), "alljobs", [s], histout=0)
+            pans = [v for v in run.by_kind("panic") if v.get("possible", True) and any(c[0][3:4] == ("jobs",) for c in v["cells"] if isinstance(c[0], tuple))]
+            errs = [v for v in run.by_kind("error_construct") if any(c[0][3:4] == ("jobs",) for c in v["cells"] if isinstance(c[0], tuple))]
+            R.ob(rule, "new_history | job without output ended in %s | recording the job cannot panic or fail" % A.sname(s), not pans and not errs,
+                 site=A.site((pans + errs)[0]) if (pans + errs) else "")
+    R.floor(rule, "finished states possible without an output", n, 9)
+
+
+def continues(A, run):
+    """does the signal loop get past the handled signal (back edge taken), i.e. the handler did not reject it?"""
+    sp = A.signal_processor()
+    heads = [blk["i"] for blk in sp.blocks if not blk["cleanup"] and blk["term"]["t"]["k"] == "call"
+             and (M.callee_name(blk["term"]["t"]) or "").endswith("Drain<'_, T, A> as std::iter::Iterator>::next")]
+    if len(heads) != 1:
+        raise Imprecision("cannot find the drain loop of the signal processor")
+    h = heads[0]
+    loop = sp.natural_loop(h)
+    fid = None
+    for k, v in run.facts.items():
+        if v.get("fn") == sp.name and not v.get("stack"):
+            fid = v["fid"]
+            break
+    if fid is None:
+        fid = 0
+    es = run.edges.get(fid, set())
+    return any(b == h and a in loop and a != h for (a, b) in es)
+
+
+def unwrap_of_lookup(A, fn, bb):
+    from rules_more import backward_slice
+    body = A.facts.body(fn)
+    t = body.term(bb)
+    if t["k"] == "call" and t["args"]:
+        p = t["args"][0].get("move") or t["args"][0].get("copy")
+        if p is not None:
+            sl = backward_slice(body, p["l"])
+            if any("HashMap" in c and c.endswith("::get") for c in sl["calls"]) and body.locals[p["l"]]["s"].startswith("std::option::Option<&usize"):
+                return True
+    return False
+
+
+@prop("C06")
+def check_C06(A, R, tier):
+    C = A.classes()
+    K = kinds(A)
+    H = A.handler_runs()
+    T = A.transitions()
+    runs = all_runs(A)
+    api = set(b.name for b in A.evaluator_methods() if b.vis == "Public")
+    # R6.1 the kind-change panic is dead: no transition changes the kind -------------------------------
+    for t in T:
+        w = t["w"]
+        bad = [(f, to) for f in w["frm"] for to in w["to"] if A.kind_of(f) != A.kind_of(to)]
+        R.ob("R6.1", tkey(A, t) + " | a state write keeps the job kind (the kind-change panic is unreachable)", not bad, site=A.site(w))
+    # R6.2 explicit panics outside the API argument checks are unreachable --------------------------------
+    seen = {}
+    for (entry, label), run in runs:
+        for v in run.by_kind("panic"):
+            if not v.get("possible", True):
+                continue
+            k = (v["fn"], v["bb"])
+            seen.setdefault(k, (v, set()))[1].add(label)
+    n_exempt = 0
+    residual = []
+    for (fn, bb), (v, labels) in sorted(seen.items()):
+        top = not v["stack"] and fn in api
+        if v["kind"] == "diverging_call":
+            nm = v["detail"][0] if v["detail"] else ""
+            explicit = nm.endswith("begin_panic") or nm.endswith("panic_fmt") or nm.endswith("panic_display")
+            if top:
+                n_exempt += 1      # argument / protocol checks of the public API (documented misuse)
+                continue
+            if explicit:
+                R.ob("R6.2", "%s | explicit panic is unreachable" % short(fn), False,
+                     detail="panic!(%s) is reachable in the analysed runs %s" % (v["detail"][1], sorted(labels)[:3]), site=A.site(v))
+            else:
+                residual.append("%s: %s (%s)" % (short(fn), (v["detail"][1] or [""])[0][:60] if v["detail"] else "", A.site(v)))
+        else:
+            # R6.3 unwrap / expect
+            if top:
+                body = A.facts.body(fn)
+                t = body.term(bb)
+                lib = None
+                if t["k"] == "call" and t["args"]:
+                    p = t["args"][0].get("move") or t["args"][0].get("copy")
+                    if p is not None:
+                        from rules_more import backward_slice
+                        sl = backward_slice(body, p["l"])
+                        lib = sl["calls"]
+                is_lookup = lib is not None and any("HashMap" in c and c.endswith("::get") for c in lib)
+                is_cycle = lib is not None and any(c.startswith("petgraph::algo::") for c in lib)
+                R.ob("R6.3", "%s | unwrap in the public API is an argument check (unknown id / cyclic graph)" % short(fn), is_lookup or is_cycle,
+                     detail="unwrap of a value that is not an id lookup or the cycle check", site=A.site(v))
+            elif unwrap_of_lookup(A, fn, bb):
+                n_exempt += 1      # id lookup in a helper of the public API (unknown id = misuse)
+            else:
+                R.ob("R6.3", "%s | unwrap/expect is guarded" % short(fn), False,
+                     detail="%s may hit the empty case (no dominating test, neighbour relation or shape fact justifies it)" % v["kind"], site=A.site(v))
+    R.info["api_argument_panics"] = n_exempt
+    R.info["residual_assertions_not_judged"] = residual
+    nun = 0
+    for (entry, label), run in runs:
+        for v in run.by_kind("panic"):
+            if v["kind"].startswith("unwrap") and not v.get("possible", True):
+                nun += 1
+    R.floor("R6.3", "unwraps proven guarded (edge lookups between neighbours, split after contains, topological order)", nun, 5)
+    # R6.4 error discipline ---------------------------------------------------------------------------------
+    sites = {}
+    for (entry, label), run in runs:
+        for v in run.by_kind("error_construct"):
+            sites.setdefault((v["fn"], v["bb"], v["variant"]), v)
+    ev_names = set(A.evaluator_fn(n).name for n in list(EVENTS) + ["event_startup"])
+    for (fn, bb, variant), v in sorted(sites.items()):
+        if variant == "APIError":
+            R.ob("R6.4", "%s | APIError is only raised by the event functions' own guards" % short(fn), fn in ev_names and not v["stack"], site=A.site(v))
+        elif variant != "InternalError":
+            R.ob("R6.4", "%s | %s is only raised by the success event" % (short(fn), variant),
+                 fn == A.evaluator_fn("event_job_finished_success").name, site=A.site(v))
+    R.info["internal_error_sites_reachable_in_the_abstraction"] = sorted(set("%s (%s)" % (short(fn), A.site(v)) for (fn, bb, var), v in sites.items() if var == "InternalError"))
+    # R6.5 emitter / handler agreement for signals a handler sends to its own job ---------------------------
+    n = 0
+    for (k, s), run in H.items():
+        for v in run.by_kind("push_signal"):
+            if v["container"] == "queue" or not is_role(v["key"], "sigtarget"):
+                continue
+            own = None
+            for c in v["cells"]:
+                if c[0] == v["key"][0]:
+                    own = c[1]
+            if own is None:
+                continue
+            for k2 in v["kinds"]:
+                for s2 in own:
+                    n += 1
+                    R.ob("R6.5", "%s | %s handler from %s sends %s to the same job in %s | the receiving handler accepts that state"
+                         % (short(v["fn"]), A.kname(k), A.sname(s), A.kname(k2), A.sname(s2)), continues(A, H[(k2, s2)]),
+                         detail="the handler of %s rejects a job in state %s with an internal error" % (A.kname(k2), A.sname(s2)), site=A.site(v))
+    R.floor("R6.5", "self-addressed emissions", n, 15)
+    # events: the signal an accepted event queues is accepted by its handler
+    for name in EVENTS:
+        for s, run in A.event_runs(name).items():
+            for v in run.by_kind("push_signal"):
+                if v["container"] != "queue":
+                    continue
+                for k2 in v["kinds"]:
+                    R.ob("R6.5", "%s | from %s queues %s | the handler accepts that state" % (name, A.sname(s), A.kname(k2)), continues(A, H[(k2, s)]),
+                         detail="the handler rejects the state the event accepted", site=A.site(v))
+    # R6.6 duplicate protection: an emission whose repetition would be rejected cancels the pending consider signals -------
+    n = 0
+    for (k, s), run in H.items():
+        if k != K["consider"]:
+            continue
+        for v in run.by_kind("push_signal"):
+            if v["container"] == "queue" or not is_role(v["key"], "sigtarget"):
+                continue
+            for k2 in v["kinds"]:
+                if k2 == K["consider"]:
+                    continue
+                # state after the first handling
+                own = None
+                for c in v["cells"]:
+                    if c[0] == v["key"][0]:
+                        own = c[1]
+                after = set()
+                for s2 in (own or ()):
+                    for w in H[(k2, s2)].by_kind("write_state"):
+                        if is_role(w["key"], "sigtarget"):
+                            after |= set(w["to"])
+                dup_rejected = any(not continues(A, H[(k2, s3)]) for s3 in after)
+                if not dup_rejected:
+                    continue
+                n += 1
+                cancels = [x for x in run.by_kind("set_op") if x["op"] == "insert" and x["target"][0] == "local" and x["elem"][0] == "key"
+                           and x["elem"][1] == v["key"][0] and connected(A, dict(v, key=v["key"]), x) and x["fid"] == v["fid"]]
+                retains = [x for x in run.by_kind("retain") if x["fid"] == v["fid"] or True]
+                R.ob("R6.6", "%s | consider handler from %s emits %s | pending consider signals for the job are cancelled (a second %s would be rejected)"
+                     % (short(v["fn"]), A.sname(s), A.kname(k2), A.kname(k2)), bool(cancels) and bool(retains),
+                     detail="a stale consider signal in the same batch repeats the emission; the second one hits the job in %s and is an internal error"
+                            % A.snames(after), site=A.site(v))
+    R.floor("R6.6", "emissions that must not be repeated", n, 3)
+    # R6.7 the history can be assembled for every way a job without output can end
+    rule_history_after_any_outcome(A, R, "R6.7")
+    # F7 is owned by C07 (R7.5); reference only
+    R.explanation = ("Necessary conditions, each over all paths: state writes keep the kind (the kind-change panic is dead); explicit panics "
+                     "outside the public API's argument checks are unreachable in the abstraction; every unwrap outside those checks is "
+                     "guarded (neighbour relation for edge lookups, shape facts for splits, stored topological order); APIError / the "
+                     "changed-output error are raised only where documented; signals a handler sends to its own job, and the signals events "
+                     "queue, are accepted by the receiving handler in the state they are sent in; emissions whose repetition would be "
+                     "rejected cancel pending consider signals; new_history's loops cannot fail for any state a job without output can "
+                     "end in.  The remaining InternalError arms and two assertions need inter-job invariants and are listed, not judged.")
+    R.assume("the InternalError arms that depend on inter-job invariants (listed in coverage.internal_error_sites_reachable_in_the_abstraction) are not decided")
+    R.assume("known finding F7 (C07 R7.5) is a reachable internal error; it is reported under C07")
